@@ -1005,6 +1005,23 @@ the accepted prefix, the failure is reported -/
 example : Transport.flushChunks Transport.writeOnce [⟨3, some .temp⟩] [[1, 2, 3, 4, 5, 6, 7, 8], [9]] = ([1, 2, 3], false) := by
   decide
 
+/-- regenerated PROBE fact (round E, review A-4): every exported method of `*xmpp.Session`, found
+by reflection and called on a fresh real session with synthesized arguments (and an unhandled IQ
+on the input, so that a serving method writes the automatic reply): whoever wrote to the
+connection did so with the output lock held at EVERY write.  This is what makes every modelled
+call a locking call (`locks i = true` in `C05_atomic`), as behaviour instead of source text: a
+new method that writes to the connection directly, without the lock and without mentioning the
+encoder, is a row with `held = false`.  Non-vacuity: at least 20 methods wrote, `Send`, `Encode`
+and the serving method among them. -/
+theorem C05_gen_writes_under_lock :
+    ∃ rows, Generated.C05.lockProbe = some rows ∧
+      (∀ r ∈ rows, r.2.1 = true → r.2.2 = true) ∧
+      20 ≤ (rows.filter (fun r => r.2.1)).length ∧
+      (rows.filter (fun r => r.2.1)).any (fun r => r.1 == "Send") = true ∧
+      (rows.filter (fun r => r.2.1)).any (fun r => r.1 == "Encode") = true ∧
+      (rows.filter (fun r => r.2.1)).any (fun r => r.1 == "Serve") = true := by
+  refine ⟨_, rfl, by decide, by decide, by decide, by decide, by decide⟩
+
 /-! ### a call that returned nil HAS put its element on the output stream (round E, seeded C05-19) -/
 
 open SendFlush in
